@@ -437,12 +437,16 @@ std::string RunLoad(const JVal& scn, const std::string& doc, const std::string& 
 		if (rk == "obj") { ScriptObj o(&root["ops"], &log); loadWith(o); }
 		else if (rk == "arr") { ScriptArr a{ &root["ops"], &log }; loadWith(a); }
 		else {
+#ifndef VH_NO_ROOT_LEAF
 			WithType(root["t"].GetString(), [&](auto* tag) {
 				using T = std::remove_pointer_t<decltype(tag)>;
 				T target = Prior<T>();
 				loadWith(target);      // on an exception the partly loaded target is not logged (its state is unspecified)
 				log.Add("[\"root\"," + Canon(target) + "]");
 			});
+#else
+			fprintf(stderr, "this archive has no scalar root\n"); exit(3);
+#endif
 		}
 	}
 	catch (...) { exc = DescribeException(); }
@@ -472,12 +476,16 @@ std::string RunSave(const JVal& scn)
 			if (rk == "obj") { ScriptObj o(&root["ops"], &log); saveWith(o); }
 			else if (rk == "arr") { ScriptArr a{ &root["ops"], &log, static_cast<size_t>(root["ops"].Size()) }; saveWith(a); }
 			else {
+#ifndef VH_NO_ROOT_LEAF
 				WithType(root["t"].GetString(), [&](auto* tag) {
 					using T = std::remove_pointer_t<decltype(tag)>;
 					T value = Prior<T>();
 					FromCanon(root["v"], value);
 					saveWith(value);
 				});
+#else
+				fprintf(stderr, "this archive has no scalar root\n"); exit(3);
+#endif
 			}
 		}
 		catch (...) { exc[medium] = DescribeException(); }
@@ -532,12 +540,16 @@ std::string RunFault(const JVal& scn, const std::string& doc, const std::string&
 			if (rk == "obj") { ScriptObj o(&root["ops"], &log); call(o); }
 			else if (rk == "arr") { ScriptArr a{ &root["ops"], &log, static_cast<size_t>(root["ops"].Size()) }; call(a); }
 			else {
+#ifndef VH_NO_ROOT_LEAF
 				WithType(root["t"].GetString(), [&](auto* tag) {
 					using T = std::remove_pointer_t<decltype(tag)>;
 					T value = Prior<T>();
 					if (isSave) FromCanon(root["v"], value);
 					call(value);
 				});
+#else
+				fprintf(stderr, "this archive has no scalar root\n"); exit(3);
+#endif
 			}
 			allocsInCall = AllocSinceArm();
 			AllocDisarm();
